@@ -531,34 +531,55 @@ def run_c15(ctx):
     os.remove(dump + '.dump')
     dbg('pairs replayed: %s' % stats)
 
-    # 2. longer histories, larger universe, errors allowed
-    big = _consts(funcs=['f1', 'f2', 'lam1', 'lam2'], bases=['t1', 't2', 't3'], facs=['F1', 'F2'], arglists='AL_Three',
-                  depsets=((), ('t1',), ('t1', 't2')), sdepsets=((), ('t3',)), maxpos=2, mix=False,
-                  maxlen=ctx.pick(4, 6), allowerror=True)
-    cfg = tlc.write_cfg(os.path.join(wd, 'sim.cfg'), constants=big, invariants=HIST_INVS, deadlock=False)
-    prefix = os.path.join(wd, 'sim', 'h')
-    os.makedirs(os.path.dirname(prefix))
-    nsim = ctx.pick(400, 6000)
-    res = tlc.run(SPEC, cfg, simulate=dict(num=nsim, file=prefix), depth=ctx.pick(5, 7), seed=ctx.seed + 1, workers=1, coverage=False, timeout=1500)
-    ctx.tlc(res, 'Factory/simulate')
-    if res.violation:
-        raise tlc.MachineryError('Factory.tla simulation: %s' % (res.violation,))
-    behs = tlc.read_sim_files(prefix)
-    if len(behs) < nsim // 2:
-        raise tlc.MachineryError('only %d simulated behaviours read back' % len(behs))
-    finals = [beh[-1][1] for beh in behs]
-    for st in finals:
-        ctx.distinct(('sim', st['hist']))
-    replay_all(ctx, pool, (plain_history(st['hist'], st['behav']) for st in finals), stats, 'Factory.tla/simulate')
+    # 2. all triples over a tiny universe (map chains of depth two)
+    tiny = _consts(funcs=['f1', 'f2'], bases=['t1'], keys=ctx.pick(('result',), ('result', 'other')), facs=['F1'], depsets=((), ('t1',)), maxlen=3)
+    cfg = tlc.write_cfg(os.path.join(wd, 'triples.cfg'), constants=tiny, invariants=HIST_INVS, deadlock=False)
+    dump = os.path.join(wd, 'triples')
+    res = tlc.run(SPEC, cfg, dump=dump, timeout=1500)
+    ctx.tlc(res, 'Factory/triples')
+    if not res.ok:
+        raise tlc.MachineryError('Factory.tla triples: %s' % (res.violation,))
+
+    def complete_triples():
+        for st in tlc.read_dump(dump):
+            if len(st['hist']) == 3:
+                if len(set(it['req'] for it in st['hist'])) > 1:
+                    ctx.distinct(('triple', st['hist']))
+                yield plain_history(st['hist'], st['behav'])
+
+    replay_all(ctx, pool, complete_triples(), stats, 'Factory.tla/triples')
+    os.remove(dump + '.dump')
+    dbg('triples replayed: %s' % stats)
+
+    # 3. (thorough) longer simulated histories, larger universe, explicit errors allowed in the specification
+    behs = []
+    if not ctx.quick:
+        big = _consts(funcs=['f1', 'f2', 'lam1', 'lam2'], bases=['t1', 't2', 't3'], facs=['F1', 'F2'], arglists='AL_Three',
+                      depsets=((), ('t1',), ('t1', 't2')), sdepsets=((), ('t3',)), maxpos=2, mix=False, maxlen=6, allowerror=True)
+        cfg = tlc.write_cfg(os.path.join(wd, 'sim.cfg'), constants=big, invariants=HIST_INVS, deadlock=False)
+        prefix = os.path.join(wd, 'sim', 'h')
+        os.makedirs(os.path.dirname(prefix))
+        nsim = 800
+        res = tlc.run(SPEC, cfg, simulate=dict(num=nsim, file=prefix), depth=7, seed=ctx.seed + 1, workers=1, coverage=False, timeout=2400)
+        ctx.tlc(res, 'Factory/simulate')
+        if res.violation:
+            raise tlc.MachineryError('Factory.tla simulation: %s' % (res.violation,))
+        behs = tlc.read_sim_files(prefix)
+        if len(behs) < nsim // 2:
+            raise tlc.MachineryError('only %d simulated behaviours read back' % len(behs))
+        finals = [beh[-1][1] for beh in behs]
+        for st in finals:
+            ctx.distinct(('sim', st['hist']))
+        replay_all(ctx, pool, (plain_history(st['hist'], st['behav']) for st in finals), stats, 'Factory.tla/simulate')
+        shutil.rmtree(os.path.dirname(prefix), ignore_errors=True)
     pool.close()
-    shutil.rmtree(os.path.dirname(prefix), ignore_errors=True)
-    dbg('simulated histories replayed: %s' % stats)
     ctx.count(evaluations=stats['requests'], traces=stats['histories'] + stats['bad'] + stats['cut'])
 
     # 3. the caches as coded: TLC must refute them, and the real code must reproduce the counterexamples
-    reproduced = [_impl_counterexample(ctx, wd, 'inj', ['C15_Inj'], [], stats),
-                  _impl_counterexample(ctx, wd, 'acts', ['C15_Acts'], [], stats),
-                  _impl_counterexample(ctx, wd, 'refines', [], ['Refines'], stats)]
+    from concurrent.futures import ThreadPoolExecutor
+    with ThreadPoolExecutor(max_workers=3) as tp:
+        reproduced = list(tp.map(lambda a: _impl_counterexample(ctx, wd, a[0], a[1], a[2], stats),
+                                 [('inj', ['C15_Inj'], []), ('acts', ['C15_Acts'], []), ('refines', [], ['Refines'])]))
     if not all(reproduced):
         ctx.drift('FactoryImpl.tla (caches keyed by the generated name) is refuted by TLC but the implementation does not reproduce '
                   'the counterexamples any more (%s): the implementation-level model is out of date' % reproduced)
@@ -611,12 +632,16 @@ def run_c15(ctx):
         os.remove(dump + '.dump')
     ctx.count(evaluations=n_collect, traces=n_collect)
     dbg('closure cases replayed: %d' % n_collect)
-    for wit, consts in (('W_Repeat', pairs), ('W_Mapped', pairs), ('W_Mixed', pairs), ('W_Error', dict(pairs, AllowError=True)),
-                        ('W_Rejected', ccfgs[0][1]), ('W_Deep', ccfgs[0][1])):
+    def _witness(arg):
+        wit, consts = arg
         wcfg = tlc.write_cfg(os.path.join(wd, wit + '.cfg'), constants=consts, invariants=[wit], deadlock=False)
-        wres = tlc.run(SPEC, wcfg, coverage=False, workers=4)
+        wres = tlc.run(SPEC, wcfg, coverage=False, workers=2)
         if wres.violation != ('invariant', wit):
             raise tlc.MachineryError('witness %s not reachable in Factory.tla' % wit)
+
+    with ThreadPoolExecutor(max_workers=6) as tp:
+        list(tp.map(_witness, (('W_Repeat', pairs), ('W_Mapped', pairs), ('W_Mixed', pairs), ('W_Error', dict(pairs, AllowError=True)),
+                               ('W_Rejected', ccfgs[0][1]), ('W_Deep', ccfgs[0][1]))))
     dbg('witnesses')
 
     # 5. code -> spec
